@@ -1,7 +1,7 @@
 //! `search` family (C08 C10 C11): fixed-depth searches with the static evaluations of the reference tree
 //! (hook H2), evaluation pairs under colour flip, terminal evaluations, and the repetition counter (hook H3).
 //! Cases:
-//!  {"id":n,"k":"godepth","fen":..,"moves":[..],"d":d,"searchmoves":[..],"warm":[{"fen":..,"d":d}..],"cap":N}
+//!  {"id":n,"k":"godepth","fen":..,"moves":[..],"d":d,"searchmoves":[..],"warm":[{"fen":..,"d":d}..],"cap":N,"ttcap":K}
 //!  {"id":n,"k":"eval","fen":..}                       static_eval(board, true) and (board, false)
 //!  {"id":n,"k":"reps","len":L,"hmax":H}               every equality pattern of length L x start x half-move clock
 use std::collections::HashMap;
@@ -129,6 +129,8 @@ fn godepth(out: &mut Out, id: u64, case: &Value) {
     let f = Fen::from_str(&fen).expect("case FEN");
     e.accept(UciCommand::PositionFrom { fen: f, moves: moves.iter().filter_map(|m| UciMove::from_str(m).ok()).collect() });
     let (go, _, _) = build_go(&json!({"depth": d, "searchmoves": sm}));
+    let ttcap = u64_of(case, "ttcap", 0);
+    verif::arm_tt_log(ttcap);
     e.accept(UciCommand::Go { go });
     let mut score = None;
     let mut pv: Vec<String> = Vec::new();
@@ -157,6 +159,13 @@ fn godepth(out: &mut Out, id: u64, case: &Value) {
     out.emit(&json!({"c": id, "ev": "godepth", "fen": fen, "moves": moves, "d": d, "searchmoves": sm, "st": st, "score": score_json(score), "depth_seen": depth_seen,
                      "pv": pv, "best": best, "ponder": ponder, "evals": evals, "tree": tbl.len(), "warm": warmed, "ref": str_of(case, "ref"),
                      "contempt": verif::contempt(), "mode": str_of(case, "mode"), "flipof": u64_of(case, "flipof", 0), "cycle": strs(case, "cycle"), "pre": pre_n}));
+    // the search's transposition-table decisions in order (hook H6), as logged: nothing is judged here
+    if ttcap > 0 {
+        let (log, dropped) = verif::take_tt_log();
+        verif::arm_tt_log(0);
+        let rows: Vec<Value> = log.iter().map(|t| json!([t.kind, format!("{:016x}", t.key), t.draft, t.a0, t.b0, t.alpha, t.beta, t.e_depth, t.e_value, t.e_type, t.e_mv_value, t.outcome, t.best])).collect();
+        out.emit(&json!({"c": id, "ev": "ttlog", "fen": fen, "d": d, "rows": rows, "dropped": dropped.to_string(), "st": st}));
+    }
 }
 
 pub fn run(args: &[String]) -> i32 {
